@@ -714,7 +714,13 @@ fn compose_option_vec<D: ComposeOptData>(d: &D) -> Result<(u16, Vec<u8>), String
 
 /// Read all options of an Opt back through AllOptData; returns
 /// (variant, code, recomposed data) per option.
-fn opt_value_eq<O: AsRef<[u8]>, N: domain::base::name::ToName>(p: &AllOptData<O, N>, v: &rgen::OptVal) -> bool {
+fn opt_value_eq<O, N, O2, N2>(p: &AllOptData<O, N>, v: &AllOptData<O2, N2>) -> bool
+where
+    O: AsRef<[u8]>,
+    O2: AsRef<[u8]>,
+    N: domain::base::name::ToName,
+    N2: domain::base::name::ToName,
+{
     use AllOptData as A;
     match (p, v) {
         (A::Dau(a), A::Dau(b)) => a == b,
@@ -891,6 +897,335 @@ fn check_options(env: &Env, lc: &mut Local) {
             }
         }
     }
+}
+
+
+//------------ option byte menus ----------------------------------------------------
+
+fn option_class(code: u16) -> &'static str {
+    match code {
+        3 => "nsid",
+        5 => "dau",
+        6 => "dhu",
+        7 => "n3u",
+        8 => "subnet",
+        9 => "expire",
+        10 => "cookie",
+        11 => "keepalive",
+        12 => "padding",
+        13 => "chain",
+        14 => "keytag",
+        15 => "ede",
+        _ => "unknown",
+    }
+}
+
+/// Independent split of OPT RDATA into (code, data); None if malformed.
+fn split_options(rd: &[u8]) -> Option<Vec<(u16, Vec<u8>)>> {
+    let mut out = Vec::new();
+    let mut p = 0;
+    while p < rd.len() {
+        let code = w::u16_at(rd, p).ok()?;
+        let len = w::u16_at(rd, p + 2).ok()? as usize;
+        let data = rd.get(p + 4..p + 4 + len)?;
+        out.push((code, data.to_vec()));
+        p += 4 + len;
+    }
+    Some(out)
+}
+
+/// OPTION-DATA menus per option code: every internal length short / exact /
+/// long, texts of length 0 / 1 / many, text that is not UTF-8.
+fn option_byte_menu() -> Vec<(u16, Vec<u8>)> {
+    let mut v: Vec<(u16, Vec<u8>)> = Vec::new();
+    let mut add = |code: u16, datas: Vec<Vec<u8>>| {
+        for d in datas {
+            v.push((code, d));
+        }
+    };
+    add(3, vec![vec![], vec![0], b"ns".to_vec(), vec![0xff; 255]]);
+    for code in [5u16, 6, 7] {
+        add(code, vec![vec![], vec![8], vec![8, 13], vec![8, 13, 14], vec![0; 255]]);
+    }
+    add(
+        8,
+        vec![
+            vec![0, 1, 0, 0],
+            vec![0, 1, 24, 0, 192, 0, 2],
+            vec![0, 1, 24, 0, 192, 0, 2, 0],
+            vec![0, 1, 24, 0, 192, 0],
+            vec![0, 1, 23, 0, 192, 0, 3],
+            vec![0, 1, 23, 0, 192, 0, 2],
+            vec![0, 1, 1, 0, 0x80],
+            vec![0, 1, 32, 32, 192, 0, 2, 1],
+            vec![0, 1, 33, 0, 192, 0, 2, 1, 0],
+            vec![0, 1, 0, 255],
+            vec![0, 1, 0, 0, 0],
+            vec![0, 2, 0, 0],
+            vec![0, 2, 56, 0, 0x20, 1, 0xd, 0xb8, 0, 0, 1],
+            vec![0, 2, 56, 0, 0x20, 1, 0xd, 0xb8, 0, 0],
+            cat(&[&[0, 2, 128, 64], &[0x20; 16]]),
+            cat(&[&[0, 2, 129, 0], &[0x20; 17]]),
+            vec![0, 0, 0, 0],
+            vec![0, 3, 8, 0, 1],
+            vec![0, 1, 24],
+            vec![],
+        ],
+    );
+    add(9, vec![vec![], vec![0, 0, 0, 1], vec![0xff; 4], vec![0, 0, 0], vec![0; 5]]);
+    add(10, [0usize, 7, 8, 9, 15, 16, 24, 39, 40, 41].iter().map(|n| rgen::fill(*n, 3)).collect());
+    add(11, vec![vec![], vec![0, 1], vec![0xff, 0xff], vec![0], vec![0, 1, 0]]);
+    add(12, vec![vec![], vec![0], vec![0; 300], vec![1, 2, 3]]);
+    let n255 = rgen::name_specs()[3].wire();
+    let mut n256 = n255.clone();
+    n256.insert(0, 1);
+    n256.insert(1, b'x');
+    add(
+        13,
+        vec![
+            vec![0],
+            vec![1, b'a', 0],
+            vec![1, b'A', 1, b'b', 0],
+            n255,
+            n256,
+            vec![1, b'a'],
+            vec![0xC0, 12],
+            vec![1, b'a', 0, 0],
+            vec![],
+            vec![0x40, 0],
+        ],
+    );
+    add(14, vec![vec![], vec![0, 1], vec![0, 1, 0xff, 0xff], vec![0, 1, 0], vec![1]]);
+    add(
+        15,
+        vec![
+            vec![],
+            vec![0],
+            vec![0, 1],
+            vec![0xff, 0xff],
+            vec![0, 1, b'x'],
+            cat(&[&[0, 18], b"prohibited: many octets of text"]),
+            cat(&[&[0, 1], "\u{e9}\u{20ac}".as_bytes()]),
+            vec![0, 1, 0xff, 0xfe],
+            vec![0, 1, 0xc3],
+            vec![0, 1, b'o', b'k', 0x80],
+            cat(&[&[0, 1], &[0x80; 255]]),
+            cat(&[&[0, 1], &[b't'; 300]]),
+            vec![0, 1, 0],
+        ],
+    );
+    for code in [0u16, 4, 16, 65001, 65535] {
+        add(code, vec![vec![], vec![7], vec![1, 2, 3]]);
+    }
+    v
+}
+
+/// Option-level treatment of OPT RDATA the parser accepted: every option
+/// read back through AllOptData must advertise the length it writes,
+/// re-compose to the octets it was parsed from, survive Opt::push and
+/// OptBuilder with a consistent option header, and parse back equal.
+fn check_option_bytes(env: &Env, rd: &[u8], origin: &str, lc: &mut Local) {
+    let reference = match split_options(rd) {
+        Some(r) => r,
+        None => return,
+    };
+    let case = || json!({"kind": "option-bytes", "origin": origin, "opt_rdata": hex(rd)});
+    lc.ev();
+    let opt = match guard(|| Opt::from_octets(rd).map_err(|e| e.to_string())) {
+        Ok(Ok(o)) => o,
+        Ok(Err(_)) => return,
+        Err(e) => {
+            env.viol(format!("C05|OPT|option-bytes|Opt::from_octets|panic|{}", panic_class(&e)), e, case());
+            return;
+        }
+    };
+    let items = guard(|| opt.iter::<AllOptData<_, _>>().take(100_000).collect::<Vec<_>>());
+    let items = match items {
+        Ok(i) => i,
+        Err(e) => {
+            env.viol(format!("C05|OPT|option-bytes|iter|panic|{}", panic_class(&e)), format!("OPT RDATA {}: {e}", hex(rd)), case());
+            return;
+        }
+    };
+    let mut all_ok = true;
+    let mut rebuilt_all = Opt::<Vec<u8>>::empty();
+    for (k, item) in items.iter().enumerate() {
+        let (code, data) = match reference.get(k) {
+            Some(r) => r,
+            None => {
+                env.viol("C05|OPT|option-bytes|iter|more-options-than-present".into(), format!("OPT RDATA {}", hex(rd)), case());
+                return;
+            }
+        };
+        let cls = option_class(*code);
+        lc.inc(format!("OPTBYTES-{cls}:cases"));
+        let item = match item {
+            Ok(i) => i,
+            Err(_) => {
+                lc.inc(format!("OPTBYTES-{cls}:rejected"));
+                all_ok = false;
+                // the iterator stops after an error
+                break;
+            }
+        };
+        lc.inc(format!("OPTBYTES-{cls}:accepted"));
+        lc.ev();
+        if item.code().to_int() != *code {
+            env.viol(format!("C05|OPT|option-bytes-{cls}|code-changed"), format!("OPT RDATA {}: option {k} code {} read as {}", hex(rd), code, item.code().to_int()), case());
+            continue;
+        }
+        // compose_len == octets written, re-compose == the octets parsed
+        let (l, d) = match compose_option_vec(item) {
+            Ok(x) => x,
+            Err(e) => {
+                env.viol(format!("C05|OPT|option-bytes-{cls}|compose_option|panic|{}", panic_class(&e)), format!("option {code} data {}: {e}", hex(data)), case());
+                continue;
+            }
+        };
+        if l as usize != d.len() {
+            env.viol(
+                format!("C05|OPT|option-bytes-{cls}|compose_len|advertised!=written"),
+                format!("option {code} parsed from data {}: compose_len() = {l} but compose_option() writes {} octets", hex(data), d.len()),
+                case(),
+            );
+            continue;
+        }
+        if &d != data {
+            env.viol(
+                format!("C05|OPT|option-bytes-{cls}|compose(parse(b))|differs-from-the-octets-parsed"),
+                format!("option {code} data {} re-composes to {}", hex(data), hex(&d)),
+                case(),
+            );
+            continue;
+        }
+        // Opt::push: header consistent, parses back equal
+        let built = guard(|| {
+            let mut o = Opt::<Vec<u8>>::empty();
+            o.push(item).map(|_| o).map_err(|e| e.to_string())
+        });
+        let built = match built {
+            Ok(Ok(o)) => o,
+            Ok(Err(e)) => {
+                env.viol(format!("C05|OPT|option-bytes-{cls}|Opt::push|refused"), format!("option {code} data {}: {e}", hex(data)), case());
+                continue;
+            }
+            Err(e) => {
+                env.viol(format!("C05|OPT|option-bytes-{cls}|Opt::push|panic|{}", panic_class(&e)), format!("option {code} data {}: {e}", hex(data)), case());
+                continue;
+            }
+        };
+        let bo = compose_vec(&built).unwrap_or_default();
+        if split_options(&bo) != Some(vec![(*code, data.clone())]) {
+            env.viol(
+                format!("C05|OPT|option-bytes-{cls}|Opt::push|option-header!=octets-that-follow"),
+                format!("option {code} parsed from data {} pushed into an empty Opt gives {}", hex(data), hex(&bo)),
+                case(),
+            );
+            continue;
+        }
+        let back = guard(|| {
+            let o2 = Opt::from_octets(bo.as_slice()).map_err(|e| e.to_string())?;
+            let mut it = o2.iter::<AllOptData<_, _>>();
+            let first = it.next().ok_or("no option")?.map_err(|e| e.to_string())?;
+            if it.next().is_some() {
+                return Err("more than one option".to_string());
+            }
+            Ok(opt_value_eq(&first, item) && opt_value_eq(item, &first) && opt_variant(&first) == opt_variant(item))
+        });
+        match back {
+            Ok(Ok(true)) => {}
+            Ok(Ok(false)) => {
+                env.viol(format!("C05|OPT|option-bytes-{cls}|parse(compose(parse(b)))|not-equal"), format!("option {code} data {}", hex(data)), case());
+                continue;
+            }
+            Ok(Err(e)) => {
+                env.viol(format!("C05|OPT|option-bytes-{cls}|parse(compose(parse(b)))|rejected|{}", err_class(&e)), format!("option {code} data {}: {e}", hex(data)), case());
+                continue;
+            }
+            Err(e) => {
+                env.viol(format!("C05|OPT|option-bytes-{cls}|parse(compose(parse(b)))|panic|{}", panic_class(&e)), format!("option {code} data {}: {e}", hex(data)), case());
+                continue;
+            }
+        }
+        // OptBuilder inside a message
+        let msg = guard(|| {
+            let mut a = MessageBuilder::new_vec().additional();
+            a.opt(|o| o.push(item)).map(|_| a.finish()).map_err(|e| e.to_string())
+        });
+        match msg {
+            Ok(Ok(m)) => {
+                let ok = match w::read_message(&m) {
+                    Ok(raw) => raw.end == m.len() && raw.sections[2].len() == 1 && raw.sections[2][0].rtype == 41 && raw.sections[2][0].rdata == bo,
+                    Err(_) => false,
+                };
+                if !ok {
+                    env.viol(
+                        format!("C05|OPT|option-bytes-{cls}|OptBuilder|rdlength-or-option-header!=octets-that-follow"),
+                        format!("option {code} parsed from data {}: message {}", hex(data), hex(&m[..m.len().min(96)])),
+                        case(),
+                    );
+                    continue;
+                }
+            }
+            Ok(Err(e)) => {
+                env.viol(format!("C05|OPT|option-bytes-{cls}|OptBuilder|refused"), format!("option {code} data {}: {e}", hex(data)), case());
+                continue;
+            }
+            Err(e) => {
+                env.viol(format!("C05|OPT|option-bytes-{cls}|OptBuilder|panic|{}", panic_class(&e)), format!("option {code} data {}: {e}", hex(data)), case());
+                continue;
+            }
+        }
+        let _ = guard(|| rebuilt_all.push(item).is_ok());
+        lc.inc(format!("OPTBYTES-{cls}:roundtripped"));
+        let mut key = vec![0xFD];
+        key.extend_from_slice(&code.to_be_bytes());
+        key.extend_from_slice(data);
+        lc.distinct.push(fnv(&key));
+    }
+    // all options accepted: pushing them all again reproduces the RDATA
+    if all_ok && items.len() == reference.len() && !items.is_empty() {
+        lc.ev();
+        let bo = compose_vec(&rebuilt_all).unwrap_or_default();
+        if bo != rd && lc_no_violation_yet(&bo, rd) {
+            env.viol(
+                "C05|OPT|option-bytes|rebuild-all-options|differs-from-the-octets-parsed".into(),
+                format!("OPT RDATA {} rebuilt option by option gives {}", hex(rd), hex(&bo)),
+                case(),
+            );
+        }
+    }
+}
+
+/// The whole-RDATA rebuild is only meaningful when every single option made
+/// it into the rebuilt Opt (a per-option violation skips the push).
+fn lc_no_violation_yet(rebuilt: &[u8], original: &[u8]) -> bool {
+    split_options(rebuilt).map(|r| r.len()) == split_options(original).map(|r| r.len())
+}
+
+fn run_option_bytes(env: &Env, lc: &mut Local) -> u64 {
+    let menu = option_byte_menu();
+    let mut n = 0;
+    let enc = |code: u16, d: &[u8]| {
+        let mut o = code.to_be_bytes().to_vec();
+        o.extend_from_slice(&(d.len() as u16).to_be_bytes());
+        o.extend_from_slice(d);
+        o
+    };
+    for (code, data) in &menu {
+        check_option_bytes(env, &enc(*code, data), "menu", lc);
+        n += 1;
+    }
+    // pairs: every EDE variant before and after an NSID option, and every
+    // option followed by padding
+    for (code, data) in &menu {
+        let one = enc(*code, data);
+        let other = if *code == 15 { enc(3, b"ns") } else { enc(12, &[0, 0]) };
+        check_option_bytes(env, &cat(&[&one, &other]), "menu-pair", lc);
+        check_option_bytes(env, &cat(&[&other, &one]), "menu-pair", lc);
+        n += 2;
+    }
+    n
 }
 
 //------------ byte grammar ----------------------------------------------------------
@@ -1182,6 +1517,9 @@ fn check_bytes(env: &Env, rtype: u16, b: &[u8], lc: &mut Local) {
         Ok(Ok(p)) => p,
     };
     lc.inc(format!("BYTES-{t}:accepted"));
+    if rtype == 41 {
+        check_option_bytes(env, b, "rdata-grammar", lc);
+    }
     // compose(parse(b))
     let b2 = match compose_vec(&p) {
         Ok(x) => x,
@@ -1312,6 +1650,9 @@ fn replay(env: &Env, path: &str) {
             let rtype = case["rtype"].as_u64().unwrap_or(0) as u16;
             check_bytes(env, rtype, &unhex(case["rdata"].as_str().unwrap_or("")), &mut lc);
         }
+        Some("option-bytes") => {
+            check_option_bytes(env, &unhex(case["opt_rdata"].as_str().unwrap_or("")), "replay", &mut lc);
+        }
         Some("option") => {
             let tier = tier_from(case["tier"].as_str().unwrap_or("quick"));
             let env2 = Env { ctx: env.ctx.clone(), stats: Stats::new(), tier };
@@ -1383,11 +1724,13 @@ fn main() {
         });
     }
 
-    // 2. options
+    // 2. options: values, then option byte menus
+    let option_byte_cases;
     {
         let mut lc = Local::default();
         wd.enter(|| json!({"type": "OPTIONS"}));
         check_options(&env, &mut lc);
+        option_byte_cases = run_option_bytes(&env, &mut lc);
         wd.leave();
         let mut m = merged.lock().unwrap();
         for (k, v) in lc.c {
@@ -1431,7 +1774,7 @@ fn main() {
         per_type.entry(t.to_string()).or_default().insert("candidates".into(), n);
     }
     let sum = |suffix: &str| -> u64 {
-        m.c.iter().filter(|(k, _)| k.ends_with(suffix) && !k.starts_with("BYTES-") && !k.starts_with("OPTION-")).map(|(_, v)| *v).sum()
+        m.c.iter().filter(|(k, _)| k.ends_with(suffix) && !k.starts_with("BYTES-") && !k.starts_with("OPTION-") && !k.starts_with("OPTBYTES-")).map(|(_, v)| *v).sum()
     };
     let sum_in = |prefix: &str, suffix: &str| -> u64 { m.c.iter().filter(|(k, _)| k.ends_with(suffix) && k.starts_with(prefix)).map(|(_, v)| *v).sum() };
     println!("{:<12} {:>9} {:>9} {:>9} {:>12} {:>9}", "type", "cand", "generated", "refused", "roundtripped", "msg-rt");
@@ -1454,6 +1797,11 @@ fn main() {
             "byte_grammar_accepted": sum_in("BYTES-", ":accepted"),
             "byte_grammar_rejected": sum_in("BYTES-", ":rejected"),
             "byte_grammar_roundtripped": sum_in("BYTES-", ":roundtripped"),
+            "option_byte_menu_rdatas": option_byte_cases,
+            "option_bytes_options_seen": sum_in("OPTBYTES-", ":cases"),
+            "option_bytes_accepted": sum_in("OPTBYTES-", ":accepted"),
+            "option_bytes_rejected": sum_in("OPTBYTES-", ":rejected"),
+            "option_bytes_roundtripped": sum_in("OPTBYTES-", ":roundtripped"),
             "options_generated": sum_in("OPTION-", ":generated"),
             "options_refused_by_constructor": sum_in("OPTION-", ":refused"),
             "options_roundtripped": sum_in("OPTION-", ":roundtripped"),
